@@ -26,6 +26,15 @@ def gen_rar_cases(tier, seed, n_direct, n_e2e):
         sel_t, sel_x = int(rng.integers(1, 5)), int(rng.integers(1, 5))
         n0 = [3, 5, 10][int(rng.integers(3))]
         nt0 = n0 if rng.integers(2) else [3, 5, 10][int(rng.integers(3))]
+        if kind.startswith("nonstatio"):
+            # time and space are refined independently: equal, fewer and more initial space points than time
+            # points, in turn (k // 4 walks the non-stationary cases of each dimension)
+            rel = (k // 4) % 3
+            if rel == 0:
+                nt0 = n0
+            else:
+                lo, hi = (min(n0, nt0), max(n0, nt0)) if n0 != nt0 else ((3, 10) if n0 != 5 else (5, 10))
+                n0, nt0 = (lo, hi) if rel == 1 else (hi, lo)
         steps_cap = int(rng.integers(0, 4)) if rng.integers(3) else 50  # capacity reached after 0..3 steps, or never
         slack_t, slack_x = int(rng.integers(0, sel_t)), int(rng.integers(0, sel_x))
         c = dict(kind=kind, start=start, every=every, sel_t=sel_t, sel_x=sel_x, n_start=n0, nt_start=nt0,
